@@ -10,6 +10,7 @@ import ast
 from sa.consteval import fold_class
 from sa.kernels import MODULE, extract, method_name
 from sa.loader import AnalysisError, Unsupported, dotted_name, norm_text
+from sa.members import self_attr
 from sa.report import where
 
 DT = 'torchtree.evolution.datatype'
@@ -111,6 +112,235 @@ def missing_branch(cls_node: ast.ClassDef, ev):
     raise Unsupported(fn, 'missing-data branch of partial() not found')
 
 
+# ---------------------------------------------------------------------------
+# C02.N — the name-to-index plumbing
+# ---------------------------------------------------------------------------
+TMOD = 'torchtree.evolution.tree_model'
+SMOD = 'torchtree.evolution.site_pattern'
+AMOD = 'torchtree.evolution.alignment'
+
+
+def _enumerate_dict(fn, name):
+    """`name = {<key>: idx for idx, x in enumerate(<seq>)}` -> (key expression text with the loop variable replaced by `x`, seq text) or None"""
+    for st in ast.walk(fn):
+        if isinstance(st, ast.Assign) and len(st.targets) == 1 and isinstance(st.targets[0], ast.Name) and st.targets[0].id == name and isinstance(st.value, ast.DictComp):
+            dc = st.value
+            if len(dc.generators) != 1:
+                return None
+            g = dc.generators[0]
+            if not (isinstance(g.iter, ast.Call) and isinstance(g.iter.func, ast.Name) and g.iter.func.id == 'enumerate' and isinstance(g.target, ast.Tuple) and len(g.target.elts) == 2):
+                return None
+            idx, var = g.target.elts[0].id, g.target.elts[1].id
+            if not (isinstance(dc.value, ast.Name) and dc.value.id == idx):
+                return ('swapped', ast.unparse(g.iter.args[0]))
+            key = ast.unparse(dc.key).replace(var, 'x')
+            return (key, ast.unparse(g.iter.args[0]))
+    return None
+
+
+def check_leaf_index(ctx, rep, rule, prefix=''):
+    """every store of a leaf's index in setup_indexes is the position of the leaf's taxon label in the taxon namespace (= the Taxa list, in which tip data and sampling
+    dates are stored)"""
+    tm = ctx.prog.module(TMOD)
+    si = tm.functions.get('setup_indexes')
+    if si is None:
+        raise AnalysisError('setup_indexes not found')
+    # stores executed for leaves: `node.index = …` not under the `if not node.is_leaf()` body
+    leaf_stores = []
+    for st in ast.walk(si):
+        if isinstance(st, ast.Assign) and isinstance(st.targets[0], ast.Attribute) and st.targets[0].attr == 'index':
+            p_, child, internal, tested = getattr(st, '_parent', None), st, False, False
+            while p_ is not None and p_ is not si:
+                if isinstance(p_, ast.If) and 'is_leaf' in ast.unparse(p_.test):
+                    tested = True
+                    negated = isinstance(p_.test, ast.UnaryOp) and isinstance(p_.test.op, ast.Not)
+                    in_body = any(child is x for x in p_.body)
+                    if in_body == negated:
+                        internal = True
+                p_, child = getattr(p_, '_parent', None), p_
+            if tested and not internal:
+                leaf_stores.append(st)
+    if not leaf_stores:
+        raise AnalysisError('setup_indexes: no store of a leaf index found')
+    for st in leaf_stores:
+        ok, facts = False, {'store': norm_text(st)}
+        if isinstance(st.value, ast.Subscript) and isinstance(st.value.value, ast.Name):
+            d = _enumerate_dict(si, st.value.value.id)
+            look = ast.unparse(st.value.slice)
+            facts.update({'lookup': look, 'table': d})
+            ok = d is not None and d[0] == 'x.label' and d[1].endswith('taxon_namespace') and look.endswith('.taxon.label')
+        rep.check(rule, f"{prefix}setup_indexes::leaf-index-is-the-position-of-its-taxon-name::{norm_text(st.value)[:40]}", ok, where(tm, st), facts,
+                  f"setup_indexes gives a leaf the index `{norm_text(st.value)[:50]}`, which is not the position of its taxon label in the taxon namespace: tip partials / states "
+                  f"and sampling dates are stored in Taxa order, so the leaf is paired with another taxon's data whenever the two orders differ")
+
+
+def check_names(ctx, rep):
+    from sa.cfg import CFG
+    tm = ctx.prog.module(TMOD)
+    # (a) polytomies are resolved on every path before the nodes are indexed
+    pt = tm.functions.get('parse_tree')
+    if pt is None:
+        raise AnalysisError('parse_tree not found')
+    cfg = CFG(pt)
+    res = [n for n in cfg.stmt_nodes() if n.stmt is not None and any(isinstance(c, ast.Call) and method_name(c) == 'resolve_polytomies' for c in ast.walk(n.stmt))
+           and not isinstance(n.stmt, (ast.If, ast.For, ast.While, ast.With, ast.Try))]
+    idxs = [n for n in cfg.stmt_nodes() if n.stmt is not None and isinstance(n.stmt, (ast.Expr, ast.Assign)) and any(
+        isinstance(c, ast.Call) and method_name(c) == 'setup_indexes' for c in ast.walk(n.stmt))]
+    if not idxs:
+        raise AnalysisError('parse_tree no longer calls setup_indexes')
+    ok = bool(res) and all(cfg.must_pass(cfg.entry, i, res) for i in idxs)
+    rep.check('C02.N', 'parse_tree::polytomies-resolved-on-every-path-before-indexing', ok, where(tm, pt), {'resolve_sites': len(res), 'index_sites': len(idxs)},
+              "parse_tree reaches setup_indexes on a path that skips tree.resolve_polytomies(): update_traversals keeps only children[0] and children[1] of every node, so a "
+              "multifurcation below the root silently loses subtrees and the likelihood depends on where the root was written")
+    # (b) leaf index from the taxon label
+    si = tm.functions.get('setup_indexes')
+    if si is None:
+        raise AnalysisError('setup_indexes not found')
+    check_leaf_index(ctx, rep, 'C02.N')
+    # (c) unrooted model: both root branches receive the other's length
+    un = tm.classes.get('UnRootedTreeModel')
+    fj = next((f for f in un.body if isinstance(f, ast.FunctionDef) and f.name == 'from_json'), None) if un is not None else None
+    if fj is None:
+        raise AnalysisError('UnRootedTreeModel.from_json not found')
+    pair = None
+    for st in ast.walk(fj):
+        if isinstance(st, ast.Assign) and isinstance(st.targets[0], ast.Tuple) and len(st.targets[0].elts) == 2 and 'seed_node' in ast.unparse(st.value) \
+                and all(isinstance(e, ast.Name) for e in st.targets[0].elts):
+            pair = tuple(e.id for e in st.targets[0].elts)
+    adds = set()
+    for st in ast.walk(fj):
+        if isinstance(st, ast.AugAssign) and isinstance(st.op, ast.Add) and isinstance(st.target, ast.Subscript) and isinstance(st.value, ast.Attribute) and st.value.attr == 'edge_length':
+            tgt, src = st.target.slice, st.value.value
+            if isinstance(tgt, ast.Attribute) and tgt.attr == 'index' and isinstance(tgt.value, ast.Name) and isinstance(src, ast.Name):
+                adds.add((tgt.value.id, src.id))
+    key = 'UnRootedTreeModel.from_json::both-root-branches-carry-the-sum'
+    if pair is None or not adds:
+        rep.undecided('C02.N', key, where(tm, fj), 'root children unpacking / `blens[child.index] += other.edge_length` updates not recognised')
+    else:
+        a, b = pair
+        rep.check('C02.N', key, adds == {(a, b), (b, a)}, where(tm, fj), {'root_children': pair, 'updates': sorted(adds)},
+                  f"with keep_branch_lengths the two root branches are merged: whichever child's entry survives `blens[:-1]` must carry the sum, so both `{a}` and `{b}` "
+                  f"need the other's length added; found only {sorted(adds)} — the tree's root branch is wrong whenever the surviving child is the other one "
+                  f"(depends on the order the children are written in)")
+    # (d) sequences are put in Taxa order by taxon name
+    am = ctx.prog.module(AMOD)
+    al = am.classes.get('Alignment')
+    init = next((f for f in al.body if isinstance(f, ast.FunctionDef) and f.name == '__init__'), None) if al is not None else None
+    if init is None:
+        raise AnalysisError('Alignment.__init__ not found')
+    ok, facts = False, {}
+    for c in ast.walk(init):
+        if isinstance(c, ast.Call) and method_name(c) in ('sort', 'sorted'):
+            k = next((kw.value for kw in c.keywords if kw.arg == 'key'), None)
+            if isinstance(k, ast.Lambda) and isinstance(k.body, ast.Subscript) and isinstance(k.body.value, ast.Name):
+                d = _enumerate_dict(init, k.body.value.id)
+                arg = k.args.args[0].arg
+                facts = {'key': ast.unparse(k.body), 'table': d}
+                taxa_param = init.args.args[3].arg if len(init.args.args) > 3 else 'taxa'
+                ok = d is not None and d[0] == 'x.id' and d[1] == taxa_param and ast.unparse(k.body.slice) == f"{arg}.taxon"
+    rep.check('C02.N', 'Alignment.__init__::sequences-sorted-into-taxa-order-by-name', ok, where(am, init), facts,
+              "the sequences must be sorted by the position of their taxon name in the Taxa list (the order of the sequence list must not matter)")
+    # (e) tips are emitted in Taxa order, looked up by taxon name
+    sm = ctx.prog.module(SMOD)
+    for name in ('compress_alignment', 'compress_alignment_states'):
+        f = sm.functions.get(name)
+        if f is None:
+            raise AnalysisError(f"{name} not found")
+        loops = [n for n in ast.walk(f) if isinstance(n, ast.For) and ast.unparse(n.iter).endswith('.taxa') and isinstance(n.target, ast.Name)]
+        ok = False
+        if len(loops) == 1:
+            v = loops[0].target.id
+            lookups = [x for x in ast.walk(loops[0]) if isinstance(x, ast.Subscript) and isinstance(x.value, ast.Name) and x.value.id == 'patterns']
+            ok = bool(lookups) and all(ast.unparse(x.slice) == f"{v}.id" for x in lookups)
+        rep.check('C02.N', f"{name}::tips-emitted-in-taxa-order-by-name", ok, where(sm, f), None,
+                  f"{name} must emit one tip per taxon of alignment.taxa, in that order, looking the patterns up by the taxon's name")
+    f = sm.functions.get('compress')
+    ok = False
+    if f is not None:
+        unz = [st for st in ast.walk(f) if isinstance(st, ast.Assign) and isinstance(st.targets[0], ast.Tuple) and ast.unparse(st.value).replace(' ', '') == f"zip(*{f.args.args[0].arg})"]
+        names = [e.id for e in unz[0].targets[0].elts] if unz else []
+        pd = [st for st in ast.walk(f) if isinstance(st, ast.Assign) and isinstance(st.targets[0], ast.Name) and st.targets[0].id == 'patterns']
+        ok = bool(names) and len(pd) == 1 and ast.unparse(pd[0].value).replace(' ', '').startswith(f"dict(zip({names[0]},")
+    rep.check('C02.N', 'compress::patterns-keyed-by-taxon-name', ok, where(sm, f) if f is not None else '', None,
+              "compress must key the compressed columns by the taxon name that came with each sequence")
+    # (f) nothing computed from a method argument is memoised on the shared SitePattern without that argument in the key
+    from props import c11
+    from sa.report import RuleProxy
+    c11.check_memo_keys(ctx, RuleProxy(rep, 'C02.N', 'memo::'), only=lambda m: m.name in (SMOD, AMOD, TMOD, 'torchtree.evolution.tree_likelihood'))
+
+def check_lookup_datatypes(ctx, rep):
+    """data types whose encoding is not a class-level table (GeneralDataType: dictionaries built per instance; CodonDataType: computed): with ambiguities off, partial()
+    must call a symbol definite exactly when encoding() does — it either derives its answer from self.encoding(...) or tests membership in the very table encoding() reads"""
+    m = ctx.prog.module(DT)
+    n = 0
+    for cname, cls in sorted(m.classes.items()):
+        if cname in ('NucleotideDataType', 'AminoAcidDataType'):
+            continue
+        part = next((f for f in cls.body if isinstance(f, ast.FunctionDef) and f.name == 'partial'), None)
+        enc = next((f for f in cls.body if isinstance(f, ast.FunctionDef) and f.name == 'encoding'), None)
+        if part is None or enc is None or any((dotted_name(d) or '').endswith('abstractmethod') for d in part.decorator_list):
+            continue
+        n += 1
+        key = f"{cname}::partial-with-ambiguities-off-is-definite-exactly-when-encoding-is"
+        W = where(m, part)
+        sn = part.args.args[1].arg
+        flag = part.args.args[2].arg if len(part.args.args) > 2 else None
+        # (i) derived from the encoding
+        uses_encoding = any(isinstance(c, ast.Call) and self_attr(c.func) == 'encoding' for c in ast.walk(part))
+        if uses_encoding:
+            rep.ok('C02.M', key, W, {'class': 'partial() is computed from self.encoding(symbol)'})
+            continue
+        # (ii) membership in the table encoding() reads
+        tables = {self_attr(c.func.value) for c in ast.walk(enc) if isinstance(c, ast.Call) and isinstance(c.func, ast.Attribute) and c.func.attr == 'get' and self_attr(c.func.value)}
+        tables |= {self_attr(s.value) for s in ast.walk(enc) if isinstance(s, ast.Subscript) and self_attr(s.value)}
+        first_if = next((st for st in part.body if isinstance(st, ast.If)), None)
+        if first_if is None or not tables:
+            rep.undecided('C02.M', key, W, 'neither derived from encoding() nor a membership test on the table encoding() reads')
+            continue
+
+        def simplify(t):
+            """conjuncts of the test with the flag set to False; None = the test is false"""
+            if isinstance(t, ast.Name) and t.id == flag:
+                return None
+            if isinstance(t, ast.UnaryOp) and isinstance(t.op, ast.Not) and isinstance(t.operand, ast.Name) and t.operand.id == flag:
+                return []
+            if isinstance(t, ast.BoolOp) and isinstance(t.op, ast.And):
+                out = []
+                for v in t.values:
+                    r = simplify(v)
+                    if r is None:
+                        return None
+                    out += r
+                return out
+            if isinstance(t, ast.BoolOp) and isinstance(t.op, ast.Or):
+                alts = [simplify(v) for v in t.values]
+                alts = [a for a in alts if a is not None]
+                if len(alts) == 1:
+                    return alts[0]
+                if not alts:
+                    return None
+                if any(a == [] for a in alts):
+                    return []
+                return [t]
+            return [t]
+        conj = simplify(first_if.test)
+        member = []
+        other = []
+        for c in conj or []:
+            if isinstance(c, ast.Compare) and len(c.ops) == 1 and isinstance(c.ops[0], ast.In) and isinstance(c.left, ast.Name) and c.left.id == sn and self_attr(c.comparators[0]):
+                member.append(self_attr(c.comparators[0]))
+            else:
+                other.append(norm_text(c))
+        ok = conj is not None and not other and any(t in tables for t in member)
+        rep.check('C02.M', key, ok, W, {'encoding_tables': sorted(tables), 'definite_test_with_flag_off': [norm_text(c) for c in (conj or [])], 'flag_read': any(
+            isinstance(x, ast.Name) and x.id == flag for x in ast.walk(part))},
+                  f"{cname}.partial(symbol, use_ambiguities=False) calls a symbol definite when `{' and '.join(norm_text(c) for c in (conj or [])) or 'never'}`, but encoding() looks it up "
+                  f"in {sorted(tables)}: an ambiguity code keeps its state set in the tip-partial representation while the tip-state representation treats it as missing, "
+                  f"so the two representations give different likelihoods")
+    if n < 2:
+        raise AnalysisError(f"only {n} lookup-based data types found (GeneralDataType / CodonDataType expected)")
+
+
 def run(ctx, rep):
     rep.explanation = (
         "C02.M: for every one of the 128 code points and both table-driven data types, the tip vector that partial(c, use_ambiguities=False) returns "
@@ -120,7 +350,18 @@ def run(ctx, rep):
         "kernels append exactly one column of ones on the last axis of the tip matrices and gather on that axis."
     )
     rep.rule('C02.M', "tip-state and tip-partial (ambiguities off) representations select the same tip vector for every symbol")
-    rep.not_decided += ["permutations of taxa / sequences / children / columns", "rerooting", "pattern compression weights"]
+    rep.rule('C02.N', "name-to-index plumbing: sequences sorted into Taxa order by name, tips emitted in Taxa order by name, leaf index = position of the taxon label, "
+                      "polytomies resolved on every path before indexing, both root branches carry the merged length, no memo on the shared SitePattern that ignores an argument")
+    rep.not_decided += ["numerical invariance under permutations of taxa / sequences / children / columns", "rerooting invariance of the pruning itself (see C01 for the kernels)",
+                        "pattern compression weights (C01.W)"]
+    try:
+        check_lookup_datatypes(ctx, rep)
+    except Unsupported as u:
+        rep.undecided('C02.M', 'check_lookup_datatypes', f"line {getattr(u.node, 'lineno', 0)}", str(u))
+    try:
+        check_names(ctx, rep)
+    except Unsupported as u:
+        rep.undecided('C02.N', 'check_names', f"line {getattr(u.node, 'lineno', 0)}", str(u))
     m = ctx.prog.module(DT)
     for cname, states_name, amb_name, nstates in (('NucleotideDataType', 'NUCLEOTIDE_STATES', 'NUCLEOTIDE_AMBIGUITY_STATES', 4),
                                                   ('AminoAcidDataType', 'AMINO_ACIDS_STATES', 'AMINO_ACIDS_AMBIGUITY_STATES', 20)):
